@@ -124,7 +124,7 @@ func readFragments(conn net.Conn, record []byte) ([]byte, error) {
 	for {
 		if msg := record[5:]; len(msg) >= 4 {
 			length := 4 + (int(msg[1])<<16 | int(msg[2])<<8 | int(msg[3]))
-			if length > maxHandshakeLength {
+			if length-4 > maxHandshakeLength {
 				return record, fmt.Errorf("%w: handshake message length %d > %d", ErrDecodeError, length, maxHandshakeLength)
 			}
 			if len(msg) >= length {
